@@ -181,6 +181,12 @@ pub fn x(r: &mut Ref, e: &X) -> String {
             format!("(({a}) {}IN ({q}))", if *not { "NOT " } else { "" })
         }
         X::Scalar(s) => format!("({})", sel(r, s)),
+        X::SubOp(e, op, kind, s) => {
+            let a = x(r, e);
+            let q = sel(r, s);
+            format!("(({a}) {} {}({q}))", crate::xspec::op_name(r.d, op), ["ANY", "SOME", "ALL"][*kind as usize % 3])
+        }
+        X::Kw(k) => k.to_string(),
         X::CustWith(pieces, args, _) => {
             // positional (`?`) templates take the arguments in order of appearance
             let mut out = String::new();
